@@ -5,3 +5,4 @@ pub mod queue;
 pub mod lexer;
 pub mod resolver;
 pub mod decode;
+pub mod decimal;
